@@ -661,30 +661,27 @@ class s_float(float, metaclass=_SFMeta):
 _Proxy.float64 = s_float
 
 
+def _minmax(args, kw, pyf, better):
+    if len(args) == 1:
+        seq = list(args[0])
+        if kw or not any(isinstance(a, SymFloat) for a in seq):
+            return pyf(seq, **kw)
+    else:
+        seq = list(args)
+        if kw or not any(isinstance(a, SymFloat) for a in seq):
+            return pyf(*seq, **kw)
+    r = seq[0]            # python semantics: keep r unless the candidate is strictly better
+    for a in seq[1:]:
+        r = ite(better(lift(a), r), a, r)
+    return r
+
+
 def s_max(*args, **kw):
-    if len(args) == 1 and not kw:
-        args = tuple(args[0])
-    elif len(args) == 1:
-        return max(*args, **kw)
-    if any(isinstance(a, SymFloat) for a in args):
-        r = args[0]           # python semantics: keep r unless a > r
-        for a in args[1:]:
-            r = ite(lift(a) > r, a, r)
-        return r
-    return max(*args, **kw)
+    return _minmax(args, kw, max, lambda a, r: a > r)
 
 
 def s_min(*args, **kw):
-    if len(args) == 1 and not kw:
-        args = tuple(args[0])
-    elif len(args) == 1:
-        return min(*args, **kw)
-    if any(isinstance(a, SymFloat) for a in args):
-        r = args[0]
-        for a in args[1:]:
-            r = ite(lift(a) < r, a, r)
-        return r
-    return min(*args, **kw)
+    return _minmax(args, kw, min, lambda a, r: a < r)
 
 
 def s_abs(x):
